@@ -125,6 +125,12 @@ func init() {
 				return multiSubOrderCase(c)
 			case 3:
 				return splitterOrderCase(c)
+			case 4:
+				return selectorOrderCase(c)
+			case 5:
+				if c.Tape.Choose(simrt.StGen, 2, 0) == 1 {
+					return repeatedInputOrderCase(c)
+				}
 			}
 			mixed := c.Tape.Choose(simrt.StGen, 5, 0) == 1
 			if mixed {
@@ -427,7 +433,22 @@ func init() {
 				}
 			}
 			c.Tasks++ // the failing command counts as work
-			return failureOracle(inc, ex, victim, what, others...)
+			v1 := failureOracle(inc, ex, victim, what, others...)
+			if v1.Status != "ok" || fault == nil || fault2 != nil || !fault.Hit || len(ex.StreamPaths) > 0 || c.Tape.Choose(simrt.StFault, 5, 0) != 1 {
+				return v1 // (re-runs of streaming workflows are C17's business)
+			}
+			// history: the user removes the temp directories, as the error message asks,
+			// and starts the workflow again; the command still fails the same way - the
+			// second attempt must not be any more silent than the first
+			c.Fault("retry-after-cleanup")
+			f2 := &FaultSpec{Key: fault.Key, Mode: fault.Mode, Arg: fault.Arg}
+			inc2 := RunInc(w, c.Tape, Cleanup(inc.Sim.FS.Root), inc.Sim.FS.NextIno, IncOpts{KillAt: -1, Strategy: strategyOf(c.Tape), Trace: c.Trace, Fault: f2})
+			c.Absorb(inc2)
+			if !f2.Hit && completedOK(inc2) {
+				return Viol("silent-failure", what+" (second attempt)", "%s of task %s; after cleanup the workflow was started again: the task was not executed at all and the program reported completion (%s)", what, victim.Key, endDesc(inc2))
+			}
+			v2 := failureOracle(inc2, ex, victim, what+" (second attempt after cleanup)", others...)
+			return v2
 		}})
 }
 
@@ -768,6 +789,124 @@ func splitterOrderCase(c *Case) Verdict {
 			return Viol("out-of-order", "", "FileSplitter emitted its parts as %v although the files arrived as %v", rec, src.Files)
 		}
 		lastFile, lastPart = fi, part
+	}
+	return OK()
+}
+
+// selectorOrderCase: IPSelectorSync forwards the accepted tuples on each of
+// its out-ports in the order in which they arrived.
+func selectorOrderCase(c *Case) Verdict {
+	t := c.Tape
+	w := &WF{Name: "wf", Sources: map[string]string{}}
+	ports := []string{"a", "b", "c"}
+	k := 1 + t.Choose(simrt.StGen, 3, 0)
+	n := []int{2, 3, 4, 6, 9}[t.Choose(simrt.StGen, 5, 0)]
+	s := srcNode(w, "src0", n, "")
+	sel := Node{Name: "sel", Kind: KSelector, Rec: true}
+	var ups []Edge
+	for i := 0; i < k; i++ {
+		e := Edge{s, "out"}
+		if i > 0 || t.Choose(simrt.StGen, 2, 0) == 1 {
+			e = Edge{oneToOne(w, "pre"+ports[i], Edge{s, "out"}), "o0"}
+		}
+		ups = append(ups, e)
+	}
+	for i := 0; i < k; i++ {
+		sel.Ins = append(sel.Ins, InSpec{Name: ports[i], From: []Edge{ups[i]}})
+		sel.Outs = append(sel.Outs, OutSpec{Name: ports[i]})
+	}
+	ex0 := Eval(w)
+	for i := 0; i < k; i++ {
+		st := ex0.Streams[w.Nodes[ups[i].Node].Name+"."+ups[i].Port]
+		for _, it := range st.Items {
+			if t.Choose(simrt.StGen, 4, 0) != 1 {
+				sel.Files = append(sel.Files, it.Path)
+			}
+		}
+	}
+	si := addNode(w, sel)
+	var outs []Edge
+	for i := 0; i < k; i++ {
+		outs = append(outs, Edge{si, ports[i]})
+	}
+	zipConsumer(w, "use", outs, ports[:k])
+	w.MaxTasks = 1 + t.Choose(simrt.StGen, 5, 0)
+	w.Bufsize = bufsizeOf(t)
+	c.Sample = "IPSelectorSync order: " + sample(w)
+	ex := Eval(w)
+	inc := RunInc(w, c.Tape, nil, 0, IncOpts{KillAt: -1, Strategy: strategyOf(c.Tape), Trace: c.Trace})
+	c.Absorb(inc)
+	outOfOrderProbe(c, inc)
+	if v, ok := inconclusiveEnd(inc); ok {
+		return v
+	}
+	if !completedOK(inc) {
+		return Skipped(Viol("no-completion", "", "%s", endDesc(inc)))
+	}
+	for i := 0; i < k; i++ {
+		got := inc.RT.Recorded[recKey("sel", ports[i], "use", ports[i])]
+		st := ex.Streams["sel."+ports[i]]
+		if st == nil {
+			continue
+		}
+		var want []string
+		for _, it := range st.Items {
+			want = append(want, it.Path)
+		}
+		if m, x := multisetDiff(append([]string(nil), got...), want); len(m)+len(x) > 0 {
+			return Skipped(Viol("selector-tuples", "", "port %s forwarded %v, the accepted tuples are %v", ports[i], got, want))
+		}
+		if strings.Join(got, " ") != strings.Join(want, " ") {
+			return Viol("out-of-order", "", "IPSelectorSync port %s: items left as %v, the accepted tuples arrived as %v", ports[i], got, want)
+		}
+	}
+	return OK()
+}
+
+// repeatedInputOrderCase: the same file reaches a process twice with other
+// files in between (a source that lists it twice). Whatever the process does
+// with the repetition (skip it because the output exists, or refuse because
+// the first copy is still in flight - then nothing is claimed), IF the run
+// completes its out-port must show the order in which the inputs arrived.
+func repeatedInputOrderCase(c *Case) Verdict {
+	t := c.Tape
+	w := &WF{Name: "wf", Sources: map[string]string{}}
+	n := 3 + t.Choose(simrt.StGen, 3, 0)
+	s := srcNode(w, "src0", n, "")
+	files := w.Nodes[s].Files
+	// repeat one of the first files at a later position
+	i := t.Choose(simrt.StGen, n-2, 0)
+	j := i + 2 + t.Choose(simrt.StGen, n-i-1, 0)
+	rep := append([]string(nil), files[:j]...)
+	rep = append(rep, files[i])
+	rep = append(rep, files[j:]...)
+	w.Nodes[s].Files = rep
+	p0 := oneToOne(w, "p0", Edge{s, "out"})
+	w.Nodes[p0].Rec = true
+	oneToOne(w, "use", Edge{p0, "o0"})
+	w.MaxTasks = 2 + t.Choose(simrt.StGen, 4, 0)
+	w.Bufsize = bufsizeOf(t)
+	c.Sample = "one input repeated: " + sample(w)
+	inc := RunInc(w, c.Tape, nil, 0, IncOpts{KillAt: -1, Strategy: strategyOf(c.Tape), Trace: c.Trace})
+	c.Absorb(inc)
+	outOfOrderProbe(c, inc)
+	if v, ok := inconclusiveEnd(inc); ok {
+		return v
+	}
+	if !completedOK(inc) {
+		c.Probe("repeated-input-refused")
+		return OK() // refused / failed: nothing is claimed about order
+	}
+	got := inc.RT.Recorded[recKey("p0", "o0", "use", "a")]
+	var want []string
+	for _, f := range rep {
+		want = append(want, f+".p0.o0")
+	}
+	if m, x := multisetDiff(append([]string(nil), got...), append([]string(nil), want...)); len(m)+len(x) > 0 {
+		return Skipped(Viol("item-lost", "", "p0 emitted %v for inputs %v", got, rep))
+	}
+	if strings.Join(got, " ") != strings.Join(want, " ") {
+		return Viol("out-of-order", "", "edge p0.o0->use.a: items left as %v, the inputs arrived as %v", got, rep)
 	}
 	return OK()
 }
